@@ -346,12 +346,12 @@ func runExec(t *testing.T, sc *Scenario, prefix []int, sigs []string, keepSigs b
 			x.Elapsed = time.Since(start)
 			x.Stuck = m.S.Blocked()
 			x.Leaked = leakedGoroutines()
+			x.Hist = m.hist
+			x.Events = m.W.events
 			if sc.Final != nil {
 				sc.Final(m, x)
 			}
 			x.Viol = append(x.Viol, m.viol...)
-			x.Hist = m.hist
-			x.Events = m.W.events
 			x.Obs = m.obs
 		})
 	}()
@@ -377,7 +377,7 @@ func leakedGoroutines() []string {
 		if mm == nil || mm[1] != mine[1] {
 			continue
 		}
-		if strings.Contains(hdr, "synctest.Run") {
+		if strings.Contains(hdr, "synctest.Run") || strings.Contains(rest, "testingSynctestTest") {
 			continue
 		}
 		// summarise: header + first sctp frame
